@@ -99,6 +99,12 @@ reg('C13', 'recording callbacks checked against the final string (invariant over
     'html-family syntaxes and as index sequence for haml/pug/slim; every key of the html/xsl tables is swept for colliding index ranges.',
     'Callbacks do not return line breaks and leave newline/baseIndent strings unchanged; elements whose text has explicit fields have no children.')
 
+reg('C09', 'Hypothesis document trees with generator-recorded ground truth × every position; oracle = lookup in the record (exact ranges)',
+    'Random well-formed HTML/XML documents (paired, void, self-closed, special elements, same-name nesting, all attribute forms incl. `>` in values and Angular/React names, comments, CDATA, PIs with quoted `?>`, '
+    'markup-like script/style bodies, script with non-special type) are written by a builder that records every range; match, balanced_outward and balanced_inward are compared at every position 0..len with the record '
+    '(≈ 2·10^5 positions quick, ≈ 10^7 thorough), attribute offsets included.',
+    'balanced_inward is two-valued exactly on element boundaries (the statement says "at the position"); documents are well formed by construction.')
+
 NOT_APPLICABLE = [
 ]
 
